@@ -423,7 +423,7 @@ fn c17_cfg(ctx: &Ctx) -> CaseCfg {
       sched_default: true,
       ..GenCfg::default()
     },
-    hot_kinds: vec![HotKind::Harness, HotKind::Subject],
+    hot_kinds: vec![HotKind::Harness, HotKind::Subject, HotKind::Behavior(0), HotKind::Replay, HotKind::Async],
     max_rec: 2,
     unsub: true,
     ..CaseCfg::default()
